@@ -83,6 +83,9 @@ class Sim:
                 g.unreveal_value(repo.coal(op[1]))
             elif kind == "reset":
                 repo.set_knowledge(g, self.v, op[1])
+            elif kind == "set_many":
+                import numpy as np
+                g.set_values(np.array([self.v[m] for m in op[1]], dtype=float), repo.coals(op[1]))   # bulk set without reset
             elif kind == "reset_value":
                 g.set_value(self.v[op[1]], repo.coal(op[1]))
             elif kind == "recompute":
@@ -96,6 +99,8 @@ class Sim:
             self.seen_nc = True
         if kind == "reveal":
             self.K.add(op[1])
+        elif kind == "set_many":
+            self.K.update(op[1])
         elif kind == "unreveal":
             self.K.discard(op[1])
             self.seen_undo = True
@@ -203,6 +208,12 @@ def make_machine(max_n: int, explicit_up_to: int = 5):
         def reveal(self, i, nc):
             u = self.sim.unknown()
             self._do(["reveal_nc" if nc else "reveal", u[i % len(u)]])
+
+        @precondition(lambda self: self.sim is not None and self.sim.unknown())
+        @rule(picks=st.lists(st.integers(0, 2**20), min_size=1, max_size=4), nc=st.booleans())
+        def set_many(self, picks, nc):
+            u = self.sim.unknown()
+            self._do(["set_many_nc" if nc else "set_many", sorted({u[i % len(u)] for i in picks})])
 
         @precondition(lambda self: self.sim is not None and self.sim.removable())
         @rule(i=st.integers(0, 2**20), nc=st.booleans())
